@@ -402,6 +402,13 @@ def _ickw(spec):
 
 
 def _force(rng, n):
+    if rng.random() < 0.18:
+        # SPARSE force vectors: exactly zero except on 0, 1 or 2 coordinates (a unit load on one equation - e.g. a
+        # residual-flexibility one - and nothing on the others; an all-zero add-on after bodies have separated)
+        f = [0.0] * n
+        for j in rng.sample(range(n), min(n, rng.choice([0, 1, 1, 2]))):
+            f[j] = rng.choice([1.0, -1.0, 10.0 * rng.gauss(0, 1)])
+        return f
     return [rng.choice([1.0, 10.0, 100.0]) * rng.gauss(0, 1) for _ in range(n)]
 
 
@@ -821,6 +828,13 @@ def _compare_case(ctx, spec, nt, f0, ops, rep_line, run, recs, frame_bad, stream
     except Exception as e:  # finalize must not fail
         ctx.disagree(stream + ":finalize", inp, repr(e), "a solution record")
         return tags
+    # the scales come from the final solution; a history whose LAST sends are zero forces ends in a (nearly) zero solution
+    # while earlier records were not small: take the largest magnitude met in any record as well
+    for a_ in recs:
+        if not isinstance(a_, str):
+            sd = max(sd, float(np.abs(a_["dcol"]).max(initial=0.0)))
+            sv = max(sv, float(np.abs(a_["vcol"]).max(initial=0.0)))
+            sa = max(sa, float(np.abs(a_["acol"]).max(initial=0.0)))
     for step, (a_, m_) in enumerate(zip(recs, model)):
         if isinstance(a_, str) or isinstance(m_, str):
             if a_ != m_:
